@@ -292,3 +292,51 @@ Example C19_recover_example_inside :
     pack (st_fs s) (recover_cfg (cfgM TInside) io2 co2) asgM = OK parts f2 /\
     fs_eqb f2 (keepM ++ datasetM) = true.
 Proof. exact recover_example_inside. Qed.
+
+(* ================================================= faults repeated up to the retry limit *)
+From SP Require Import Proofs.RetryExhaust.
+
+(* Bounded, decided by computation (setup M, budget 3, three temp modes): three raising faults
+   at the three consecutive calls from EVERY position of the run on ([burst pos 3 FRaise]: each
+   of them ends one attempt of the wrapper the call belongs to) -- the call raises or leaves the
+   fault-free tree, and from the tree an aborted run leaves the fault-free repeat with
+   overwrite=True ends in exactly the fault-free tree; the run RAISES at every position but the
+   four where pyarrow's scanner puts two of the three faults into one attempt
+   ([scanner_positions]; one more fault and it raises there too).  No wrapper gives up quietly
+   once its budget is spent: what a "best effort" removal of a temp directory would break. *)
+Theorem C19_exhaust_M :
+  (forallb (fun pos => safe_and_recovers 3 (burst pos 3 FRaise) TInside) (seq 0 75) = true /\
+   filter (fun pos => negb (aborts 3 (burst pos 3 FRaise) TInside)) (seq 0 75) = scanner_positions /\
+   forallb (fun pos => aborts_and_recovers 3 (burst pos 4 FRaise) TInside) scanner_positions = true) /\
+  (forallb (fun pos => safe_and_recovers 3 (burst pos 3 FRaise) (TExternal [])) (seq 0 75) = true /\
+   filter (fun pos => negb (aborts 3 (burst pos 3 FRaise) (TExternal []))) (seq 0 75) = scanner_positions /\
+   forallb (fun pos => aborts_and_recovers 3 (burst pos 4 FRaise) (TExternal [])) scanner_positions = true) /\
+  (forallb (fun pos => outcome_ok 3 (burst pos 3 FRaise) (TExternal uuid_parent)) (seq 0 75) = true /\
+   filter (fun pos => negb (aborts 3 (burst pos 3 FRaise) (TExternal uuid_parent))) (seq 0 75) = scanner_positions).
+Proof. exact exhaust_raise_M. Qed.
+Print Assumptions C19_exhaust_M.
+
+(* ... and within the budget (two consecutive raising calls) the run RETURNS with the
+   fault-free tree, at every one of the 63 retried calls *)
+Theorem C19_within_budget_M :
+  forallb (fun pos => returns_same 3 (burst pos 2 FRaise) TInside) (seq 0 63) = true /\
+  forallb (fun pos => returns_same 3 (burst pos 2 FRaise) (TExternal [])) (seq 0 63) = true.
+Proof. exact within_budget_M. Qed.
+Print Assumptions C19_within_budget_M.
+
+(* FileNotFoundError at rm on three consecutive attempts of rm_retry ([alt]: the honest
+   existence re-check lies in between), at each of the 9 removals of the run.  With external
+   temp directories every removal targets something that exists, so the call raises (and the
+   repeat recovers) -- in particular at the removal of a partition's temp directory, which
+   nothing else would remove.  With the default temp directories the second removal of a path
+   finds it gone and returns: raises or fault-free tree. *)
+Theorem C19_exhaust_fnf_rm_M :
+  List.length (rm_positions (TExternal [])) = 9 /\
+  forallb (fun pos => aborts_and_recovers 3 (alt pos 3 FNotFound) (TExternal [])) (rm_positions (TExternal [])) = true /\
+  List.length (rm_positions (TExternal uuid_parent)) = 9 /\
+  forallb (fun pos => aborts 3 (alt pos 3 FNotFound) (TExternal uuid_parent)) (rm_positions (TExternal uuid_parent)) = true /\
+  List.length (rm_positions TInside) = 9 /\
+  forallb (fun pos => outcome_ok 3 (alt pos 3 FNotFound) TInside && recover_ok 3 (alt pos 3 FNotFound) TInside)
+          (rm_positions TInside) = true.
+Proof. exact exhaust_fnf_rm_M. Qed.
+Print Assumptions C19_exhaust_fnf_rm_M.
